@@ -65,7 +65,7 @@ where
             let vmp_res: usize = self.bytes_of_vec_znx_dft(cols, brk_size) * extension_factor;
             let vmp_xai: usize = self.bytes_of_vec_znx_dft(1, brk_size);
             let acc_dft_add: usize = vmp_res;
-            let vmp: usize = self.vmp_apply_dft_to_dft_tmp_bytes(brk_size, dnum, dnum, 2, 2, brk_size); // GGSW product: (1 x 2) x (2 x 2)
+            let vmp: usize = self.vmp_apply_dft_to_dft_tmp_bytes(brk_size, dnum, dnum, cols, cols, brk_size); // GGSW product: (1 x cols) x (cols x cols)
             let acc: usize = if extension_factor > 1 {
                 VecZnx::bytes_of(self.n(), cols, glwe_infos.size()) * extension_factor
             } else {
